@@ -32,6 +32,7 @@ func scenarios(tier string) []sched.Scenario {
 		{Name: "failed-become-leader", Fault: "failed-become-leader", Clients: 0, PerCli: 0, SyncData: true},
 		{Name: "leader-crash", Fault: "leader-crash", Clients: 2, PerCli: 1, SyncData: true},
 		{Name: "spurious-failover", Fault: "spurious-failover", Clients: 2, PerCli: 1, SyncData: true},
+		{Name: "lost-newterm-response", Fault: "lost-newterm-response", Clients: 2, PerCli: 1, SyncData: true},
 		{Name: "swap", Fault: "swap", Clients: 2, PerCli: 1, SyncData: true},
 		{Name: "swap-unreachable", Fault: "swap-unreachable", Clients: 2, PerCli: 1, SyncData: true},
 		{Name: "lost-become-leader-response", Fault: "lost-become-leader-response", Clients: 2, PerCli: 1, SyncData: true},
